@@ -471,6 +471,11 @@ func newStreamReaderWithConvert[T any](origin iStreamReader, convert func(any) (
 //	fmt.Println(s) // Output: val_1
 func StreamReaderWithConvert[T, D any](sr *StreamReader[T], convert func(T) (D, error)) *StreamReader[D] {
 	c := func(a any) (D, error) {
+		if a == nil {
+			// a nil interface value is a legal item when T is an interface type
+			var t T
+			return convert(t)
+		}
 		return convert(a.(T)) // nolint: byted_interface_check_golintx
 	}
 
